@@ -289,6 +289,25 @@ Section Consumer.
     end.
 
   Definition crun (s : cstate) (es : list cevent) : cstate := fold_left cstep es s.
+
+  (* What one model step stands for: one critical section under _transactions_lock (the translator checks that
+     every access to buffer and table happens with the lock held).  For contrast, a handler that decides
+     "transaction unknown" inside the critical section but buffers the part after leaving it: the part is held
+     by the notification thread (UDecide) and reaches the buffer in a later step (UFlush); a response may come
+     in between. *)
+  Inductive uevent := UResp (id : Z) (st : istate) | UDecide (p : cpart) | UFlush.
+  Record ustate := mkU { u_c : cstate; u_held : list cpart }.
+  Definition ustep (s : ustate) (e : uevent) : ustate :=
+    match e with
+    | UResp id st => mkU (cstep (u_c s) (CResp id st)) (u_held s)
+    | UDecide p =>
+        match aget (cp_id p) (c_pend (u_c s)) with
+        | Some _ => mkU (cstep (u_c s) (CPart p)) (u_held s)
+        | None => mkU (u_c s) (u_held s ++ [p])
+        end
+    | UFlush => mkU (mkC (c_pend (u_c s)) (lastn cap (c_recent (u_c s) ++ u_held s)) (c_done (u_c s))) []
+    end.
+  Definition urun (s : ustate) (es : list uevent) : ustate := fold_left ustep es s.
 End Consumer.
 
 Definition done_of (id : Z) (s : cstate) : list cres :=
